@@ -14,7 +14,7 @@ Open Scope Z_scope.
    no longer a registered cluster host)" - every run of Sync, every response of every call *)
 Theorem C19_sync_drops_only_restored : forall env tr o, runs (opt_sync env) tr o ->
   exists mrs, (Forall (fun e => readcall (ev_call e)) tr \/ master_seen env tr mrs) /\
-              trace_ok ost (ostep mrs) (ookc (oe_cluster env)) ost0 tr.
+              trace_ok ost (ostep mrs) (ookc (ov_cluster env)) ost0 tr.
 Proof. exact sync_drops_only_restored. Qed.
 Print Assumptions C19_sync_drops_only_restored.
 
@@ -24,8 +24,8 @@ Print Assumptions C19_sync_drops_only_restored.
 Theorem C19_sync_success_restores : forall env tr, runs (opt_sync env) tr (Done None) ->
   exists mrs k, master_seen env tr mrs /\
     forall h en, observed tr h en ->
-      (classify env mrs en (assoc h (oe_states env)) = OcMalf \/ classify env mrs en (assoc h (oe_states env)) = OcOptimized) ->
-      mem_host h (oe_cluster env) = true -> Some h <> k ->
+      (classify env mrs en (assoc h (ov_states env)) = OcMalf \/ classify env mrs en (assoc h (ov_states env)) = OcOptimized) ->
+      mem_host h (ov_cluster env) = true -> Some h <> k ->
       o_rest (fold_steps ost (ostep mrs) ost0 tr) h = true.
 Proof. exact sync_success_restores. Qed.
 Print Assumptions C19_sync_success_restores.
@@ -34,7 +34,7 @@ Print Assumptions C19_sync_success_restores.
 Theorem C19_sync_success_deregisters : forall env tr, runs (opt_sync env) tr (Done None) ->
   exists mrs, master_seen env tr mrs /\
     forall h en, observed tr h en ->
-      (classify env mrs en (assoc h (oe_states env)) = OcMalf \/ classify env mrs en (assoc h (oe_states env)) = OcOptimized) ->
+      (classify env mrs en (assoc h (ov_states env)) = OcMalf \/ classify env mrs en (assoc h (ov_states env)) = OcOptimized) ->
       exists e, In e tr /\ ev_call e = DcsDelete (POptNode h) /\ (ev_resp e = ROk \/ ev_resp e = RErr ENotFound).
 Proof. exact sync_success_deregisters. Qed.
 Print Assumptions C19_sync_success_deregisters.
@@ -44,7 +44,7 @@ Theorem C19_no_lag_is_switched_off : forall env mrs en ns, opt_lag ns = None -> 
 Proof. exact classify_nolag. Qed.
 Print Assumptions C19_no_lag_is_switched_off.
 Theorem C19_converged_is_switched_off : forall env mrs en ns lag, ns_is_master ns = false -> opt_lag ns = Some lag ->
-  (lag < oe_low env \/ (en = false /\ lag < oe_high env)) -> oe_low env <= oe_high env ->
+  (lag < ov_low env \/ (en = false /\ lag < ov_high env)) -> ov_low env <= ov_high env ->
   classify env mrs en (Some ns) = OcOptimized.
 Proof. exact classify_converged. Qed.
 Print Assumptions C19_converged_is_switched_off.
@@ -60,8 +60,8 @@ Print Assumptions C19_sync_relaxes_at_most_one.
 (* ... and, plan given, every other optimising host is restored by a successful sync; the
    hosts it leaves alone are those whose settings already equal the master's *)
 Theorem C19_surplus_optimising_hosts_restored : forall env mrs p st,
-  wp ost (ostep mrs) (ookc (oe_cluster env)) st (sync_act env mrs p)
-     (fun st' e => e = None -> forall h, In h (to_restore p) -> Some h <> kept p -> mem_host h (oe_cluster env) = true -> o_rest st' h = true).
+  wp ost (ostep mrs) (ookc (ov_cluster env)) st (sync_act env mrs p)
+     (fun st' e => e = None -> forall h, In h (to_restore p) -> Some h <> kept p -> mem_host h (ov_cluster env) = true -> o_rest st' h = true).
 Proof. exact wp_sync_act. Qed.
 Print Assumptions C19_surplus_optimising_hosts_restored.
 Theorem C19_left_alone_means_equal_settings : forall env mrs en ons, classify env mrs en ons = OcDisabled ->
@@ -86,7 +86,7 @@ Theorem C19_switchover_disables_first : forall cfg env sw mem tr o, runs (perfor
   exists active tr1 tr2, tr = tr1 ++ tr2 /\ incl active (se_active env) /\
     Forall (fun e => disable_call (ev_call e)) tr1 /\
     (runs (opt_disable_all (se_old_master env) active) tr1 (Done None) \/
-     (tr2 = [] /\ exists o1, runs (opt_disable_all (se_old_master env) active) tr1 o1 /\ o1 <> Done None)).
+     (tr2 = [] /\ exists o1, runs (opt_disable_all_k (mem_host (se_old_master env) (map fst (se_all_hosts env))) (se_old_master env) active) tr1 o1 /\ o1 <> Done None)).
 Proof. exact switchover_disables_first. Qed.
 Print Assumptions C19_switchover_disables_first.
 
@@ -104,7 +104,7 @@ Print Assumptions C19_speedup_phase_restores_refuted.
 
 (* non-vacuity: a successful run of Sync that restores and deregisters a converged host *)
 Example C19_sync_success_exists :
-  exists tr, runs (opt_sync {| oe_master := 1%N; oe_states := [(1%N, w_ns true None); (2%N, w_ns false (Some 10))]; oe_cluster := [1%N; 2%N]; oe_low := 60; oe_high := 120 |}) tr (Done None)
+  exists tr, runs (opt_sync {| ov_master := 1%N; ov_states := [(1%N, w_ns true None); (2%N, w_ns false (Some 10))]; ov_cluster := [1%N; 2%N]; ov_low := 60; ov_high := 120 |}) tr (Done None)
              /\ observed tr 2%N false.
 Proof.
   exists [ ev 50080 (DcsChildren POptNodes) (RHosts [2%N]); ev 30044 (DcsGet (POptNode 2%N)) (RVal (VOpt false));
